@@ -212,7 +212,8 @@ class ControlVariates:
                 b_star = np.zeros_like(sigma_xy)
             else:
                 # pseudo-inverse: collinear controls make sigma_x singular, 'inv' then returns huge values without raising
-                inv_sigma_x = np.linalg.pinv(sigma_x, hermitian=True)
+                # (eigenvalues below 1e-12 of the largest are rounding residue of a singular direction, not information)
+                inv_sigma_x = np.linalg.pinv(sigma_x, rcond=1e-12, hermitian=True)
                 b_star = inv_sigma_x @ sigma_xy
         except np.linalg.LinAlgError:
             logging.log(
